@@ -168,3 +168,20 @@ func TestC11ReplayChild(t *testing.T) {
 	out, _ := json.Marshal(tr)
 	fmt.Printf("TRACE:%s\n", out)
 }
+
+// TestC11Upgrade: the block that executes the v1.2.0 upgrade is part of the replicated history too.
+// Generated pre-upgrade states (the C16 generator) are upgraded twice, as two replicas would do it,
+// through the keeper-level steps or through the real upgrade handler; every store must come out
+// byte-identical.
+func TestC11Upgrade(t *testing.T) {
+	st := StatsFor("C11")
+	rapid.Check(t, func(t *rapid.T) {
+		if rapid.Bool().Draw(t, "viaHandler") {
+			w, ctx := caseNoICA()
+			v := &VestWorld{W: w, App: w.App, Ctx: ctx.WithBlockTime(nsTime(T0.UnixNano() + secNs)), NowNs: T0.UnixNano() + secNs, fresh: 1000}
+			runC16(t, st, v, true, true)
+		} else {
+			runC16(t, st, NewVestWorld(nil), false, true)
+		}
+	})
+}
